@@ -52,14 +52,14 @@ pub const WITNESSES: [W; 16] = [
     ("C01", "c01-recursion-placeholder-memoised", || {
         let src = Sources::single("let node = / on get -> x;\nlet x = node;\nres node;\nres x;\n");
         match pipeline::run(&src, None) {
-            Outcome::Panic { stage, accepted: true, info } => Some(format!("C01 panic in {stage}: {}", info.signature())),
+            Outcome::Panic { stage, accepted: true, info } => Some(format!("C01 panic in {stage}: {} [alias-on-cycle]", info.signature())),
             _ => None,
         }
     }),
     ("C01", "c01-recursion-placeholder-as-uri", || {
         let src = Sources::single("let @u = /a?{ 'b v };\nlet v = [ { 'l (@u on get -> <>) } ];\nres @u on get -> <>;\n");
         match pipeline::run(&src, None) {
-            Outcome::Panic { stage, accepted: true, info } => Some(format!("C01 panic in {stage}: {}", info.signature())),
+            Outcome::Panic { stage, accepted: true, info } => Some(format!("C01 panic in {stage}: {} [uri-kinded-declaration-on-cycle]", info.signature())),
             _ => None,
         }
     }),
